@@ -1,6 +1,27 @@
 import PPProofs.Props.C04
+import PPProofs.Props.C04Iter
 #print axioms PP.Parse.growLoop_peek_spec
 #print axioms PP.Parse.growLoop_round_grows
 #print axioms PP.Parse.lr_no_base
 #print axioms PP.Parse.lr_transparent_nonrec
 #print axioms PP.Parse.lr_transparent_nonrec_fail
+#print axioms PP.Parse.lr_direct_eq_iterative
+#print axioms PP.Parse.lr_direct_eq_iterative_acts
+#print axioms PP.Parse.lr_direct_eq_iterative_budget
+#print axioms PP.Parse.iterLoop_budget
+#print axioms PP.Parse.iterLoop_no_hang
+#print axioms PP.Parse.iterRef_plain
+#print axioms PP.Parse.growLoop_lrBody_loop
+#print axioms PP.Parse.parseLR_frame
+#print axioms PP.Parse.parseLR_body_eq_lrBody
+#print axioms PP.Parse.parseLR_direct_eq_iterative_partial
+#print axioms PP.Parse.growLoop_congr
+#print axioms PP.Parse.growLoop_enhFix
+#print axioms PP.Parse.tailOf_strict
+#print axioms PP.Parse.parse_lit1_strict
+#print axioms PP.Parse.parseLR_direct_eq_parse_iterative_partial
+#print axioms PP.Parse.parse_I_step
+#print axioms PP.Parse.manyLoop_eq_iterLoop
+#print axioms PP.Parse.exG2_end_differs
+#print axioms PP.Parse.parseLR_direct_eq_parse_iterative_ws_partial
+#print axioms PP.Parse.parse_I_step_ws
